@@ -46,6 +46,8 @@ def _factories():
     for t in ("t1", "t2", "t3"):
         F["Table:" + t] = (lambda t=t: Table(t))
     F["Table:s.t4"] = lambda: Table("t4", schema="s")
+    F["Table:a.t1"] = lambda: Table("t1", schema="a")          # same names as t1 / t2, other schema: different tables
+    F["Table:b.t2"] = lambda: Table("t2", schema="b")
     # terms refer to tables t1/t2 (by value: Table.__eq__ compares names), so that replace_table has something to replace
     T1, T2 = (lambda: Table("t1")), (lambda: Table("t2"))
     F["fn.Sum"] = lambda: fn.Sum(Field("x", table=T1()))
